@@ -46,6 +46,11 @@ def gen(rng, tier, i):
             batches[-1]['ppo2ppi'] = True
             batches[-1]['ppi_time'] = rng.choice([0, 0, 1.5, 4])
             batches.append({'stim': batches[-1]['stim'], 'keep_s': True, 'seed': batches[-1]['seed'], 'custom': []})
+            for _ in range(rng.choice([0, 0, 1, 3])):      # a real multi-cycle run: capture at a clock period, transfer state, propagate again ...
+                batches[-1]['ppo2ppi'] = True
+                batches[-1]['ppi_time'] = rng.choice([0, 0, 2])
+                batches[-1]['time'] = rng.choice([5, 12.5, 40, 1000])
+                batches.append({'stim': batches[-1]['stim'], 'keep_s': True, 'seed': batches[-1]['seed'], 'custom': []})
     case = {'script': script, 'sims': sims, 'delays': wavegen.gen_delays(rng, n_sets=n_sets), 'caps': wavegen.gen_caps(rng, p_fault=0.3),
             'batches': batches, 'actrl': wavegen.gen_actrl(rng, p=0.3)}
     base = {'c_reuse': rng.random() < 0.3, 'strip_forks': rng.random() < 0.3}
